@@ -153,9 +153,11 @@ def join_blocks(
     if isinstance(block2, gtirb.CodeBlock):
         assert isinstance(block1, gtirb.CodeBlock)
 
+        flows_in = False
         for in_edge in tuple(block2.incoming_edges):
             if _is_fallthrough_edge(in_edge) and in_edge.source is block1:
                 ir.cfg.discard(in_edge)
+                flows_in = True
 
         if not block1.size:
             for in_edge in tuple(block2.incoming_edges):
@@ -166,7 +168,13 @@ def join_blocks(
                 ir.cfg.discard(in_edge)
 
         for out_edge in tuple(block2.outgoing_edges):
-            update_edge(out_edge, ir.cfg, source=block1)
+            if block1.size and not block2.size and not flows_in:
+                # block1 ends in a jump or return and nothing else reaches the
+                # empty block2, so block2's fallthrough is dead; moving it
+                # would make block1 fall through after its terminator.
+                ir.cfg.discard(out_edge)
+            else:
+                update_edge(out_edge, ir.cfg, source=block1)
 
         remove_function_block_aux(cache, block2)
 
